@@ -161,13 +161,19 @@ class Worker:
 
 
 def draw_configs(rng, k, optimize_p=0.2, optimize_all=None):
-    """k interpreter configurations: hash seeds always include 0, 1 and two
-    large values; some interpreters run with -O (asserts and __debug__ blocks
-    compiled away: pytato's collision checks and part of its diagnostics)"""
-    seeds = [0, 1, 4294967295, 2147483647]
+    """k interpreter configurations: about half of the hash seeds come from the
+    edge values 0, 1, 2**31-1, 2**32-1, the others are drawn afresh for every
+    fleet (a fixed seed set never separates, say, {'o1', 'o2'}: seeds 0, 1 and
+    2 all iterate that set the same way -- seeded change C17-c17g); some
+    interpreters run with -O (asserts and __debug__ blocks compiled away:
+    pytato's collision checks and part of its diagnostics)"""
+    edge = [0, 1, 4294967295, 2147483647]
+    rng.shuffle(edge)
+    seeds = edge[:max(1, k // 2)]
     while len(seeds) < k:
-        seeds.append(rng.randrange(2, 2 ** 32))
-    seeds = seeds[:k] if k <= 4 else seeds
+        s = rng.randrange(2, 2 ** 32)
+        if s not in seeds:
+            seeds.append(s)
     rng.shuffle(seeds)
     out = [{"hashseed": s, "prelude": rng.randrange(1, 10 ** 6)}
            for s in seeds[:k]]
